@@ -109,6 +109,10 @@ func decomposeInput(
 }
 
 func requiredGas(input []byte, abi *gethabi.ABI) uint64 {
+	if len(input) < 4 {
+		// Too short to hold a method ID. "Run" returns the error.
+		return gethparams.TxGas
+	}
 	method, err := methodById(abi, input[:4])
 	if err != nil {
 		// It's appropriate to return a reasonable default here
